@@ -105,7 +105,11 @@ func New(property, rule string) *Rec {
 	}
 }
 
-func (r *Rec) Assume(s ...string) { r.mu.Lock(); r.p.Assumptions = append(r.p.Assumptions, s...); r.mu.Unlock() }
+func (r *Rec) Assume(s ...string) {
+	r.mu.Lock()
+	r.p.Assumptions = append(r.p.Assumptions, s...)
+	r.mu.Unlock()
+}
 func (r *Rec) Note(format string, a ...any) {
 	r.mu.Lock()
 	if len(r.p.Notes) < 40 {
@@ -217,7 +221,12 @@ func (r *Rec) Sample(s any) {
 func (r *Rec) Class(c string, n int64) { r.mu.Lock(); r.p.Classes[c] += n; r.mu.Unlock() }
 func (r *Rec) Known(id string)         { r.mu.Lock(); r.p.Known[id]++; r.mu.Unlock() }
 func (r *Rec) Excluded(what string)    { r.mu.Lock(); r.p.Excluded[what]++; r.mu.Unlock() }
-func (r *Rec) SetExhaustive(of string) { r.mu.Lock(); r.p.Exhaustive = true; r.p.ExhaustiveOf = of; r.mu.Unlock() }
+func (r *Rec) SetExhaustive(of string) {
+	r.mu.Lock()
+	r.p.Exhaustive = true
+	r.p.ExhaustiveOf = of
+	r.mu.Unlock()
+}
 func (r *Rec) KnownHits(id string) int64 {
 	r.mu.Lock()
 	defer r.mu.Unlock()
@@ -237,11 +246,28 @@ func (r *Rec) Evaluations() int64 {
 // Violation writes a replay file and prints the marker the driver turns into a VIOLATION line.
 // Called on every failing execution; rapid runs the shrunk case last, so the file named in the
 // last marker is the minimal one.
+// Prelude: a call history that preceded the checked call of the current case (see checks/noise_test.go). It is written
+// into the replay file of a violation and re-run by LoadReplay (through PreludeRunner) before the replayed check.
+var (
+	preludeMu     sync.Mutex
+	prelude       any
+	PreludeRunner func(raw json.RawMessage)
+)
+
+// SetPrelude records (or, with nil, clears) the prelude of the current case.
+func SetPrelude(v any) { preludeMu.Lock(); prelude = v; preludeMu.Unlock() }
+
 func (r *Rec) Violation(input any, what string) string {
 	r.mu.Lock()
 	defer r.mu.Unlock()
 	r.p.Violations++
-	b, _ := json.MarshalIndent(map[string]any{"property": r.p.Property, "what": what, "input": input}, "", " ")
+	doc := map[string]any{"property": r.p.Property, "what": what, "input": input}
+	preludeMu.Lock()
+	if prelude != nil {
+		doc["prelude"] = prelude
+	}
+	preludeMu.Unlock()
+	b, _ := json.MarshalIndent(doc, "", " ")
 	dir := filepath.Join(Root(), "replays")
 	_ = os.MkdirAll(dir, 0o755)
 	name := filepath.Join(dir, fmt.Sprintf("%s-s%d-p%d.json", r.p.Property, r.p.Shard, os.Getpid()))
@@ -310,11 +336,15 @@ func LoadReplay(path string, v any) (what string, err error) {
 		return "", err
 	}
 	var env struct {
-		What  string          `json:"what"`
-		Input json.RawMessage `json:"input"`
+		What    string          `json:"what"`
+		Input   json.RawMessage `json:"input"`
+		Prelude json.RawMessage `json:"prelude"`
 	}
 	if err := json.Unmarshal(b, &env); err != nil {
 		return "", err
+	}
+	if len(env.Prelude) > 0 && PreludeRunner != nil {
+		PreludeRunner(env.Prelude)
 	}
 	return env.What, json.Unmarshal(env.Input, v)
 }
